@@ -310,18 +310,24 @@ class DecisionMatrix(DiffEqualityMixin):
                 f"'matrix' must have 2 dimensions, found {matrix_ndim} instead"
             )
 
-        alternatives = np.asarray(
-            [f"A{idx}" for idx in range(a_number)]
-            if alternatives is None
-            else alternatives
+        alternatives = np.array(
+            (
+                [f"A{idx}" for idx in range(a_number)]
+                if alternatives is None
+                else alternatives
+            ),
+            copy=True,
         )
         if len(alternatives) != a_number:
             raise ValueError(f"'alternatives' must have {a_number} elements")
 
-        criteria = np.asarray(
-            [f"C{idx}" for idx in range(c_number)]
-            if criteria is None
-            else criteria
+        criteria = np.array(
+            (
+                [f"C{idx}" for idx in range(c_number)]
+                if criteria is None
+                else criteria
+            ),
+            copy=True,
         )
 
         if len(criteria) != c_number:
